@@ -104,7 +104,6 @@ func checkGeneratedCalls(c *Ctx, rule string, ev *tmpl.Evaluator) {
 	}
 }
 
-
 // optionalArgs lists the guards of the conditionally emitted pieces of l.Text[start:end] that add
 // an argument (their text starts with a comma); conditional pieces inside one argument (a type
 // spelled two ways, an alternative expression) do not change the shape of the list.
@@ -127,7 +126,6 @@ func optionalArgs(l *tmpl.Linear, start, end int) []string {
 	}
 	return out
 }
-
 
 // checkPointerMarkers: the payload of a response is spelled as a type in several places of one
 // generated file (the field, its getter, its setters); the `*` in front of the type is conditional —
